@@ -52,6 +52,25 @@ def build_vp_libs(builder, bins):
     return {"VP_LIBDIR": d}
 
 
+SEV_NAMES = ["trace", "debug", "info", "warn", "error", "fatal"]
+LOG_VARIANTS = {}
+for _i, _n in enumerate(SEV_NAMES):
+    LOG_VARIANTS["plain+min%d" % _i] = {"flags": ["-DNITRO_LOG_MIN_SEVERITY=%s" % _n, "-DVP_MIN=%d" % _i]}
+for _i in (0, 3):
+    LOG_VARIANTS["asan+min%d" % _i] = {"flags": ["-DNITRO_LOG_MIN_SEVERITY=%s" % SEV_NAMES[_i], "-DVP_MIN=%d" % _i]}
+
+
+def log_runs(tier):
+    return [{"variant": v} for v in LOG_VARIANTS]
+
+
+LOG_ASSUMPTIONS = [
+    "the harness is compiled once per compile-time minimum (6 binaries + 2 ASan binaries); the type-level half of the property is a static_assert in every instantiation",
+    "form A (one expression) is produced by a recursion in which every insertion consumes the previous temporary and yields a new one, exactly the overloads a literal chain uses",
+    "recording formatter / recording sequence sink are template parameters; timestamps are set but never compared",
+    "custom record attributes, MPI/OpenMP/syslog/logfile sinks are not driven",
+]
+
 CHECKS = {
     "C01": dict(src=["checks/C01.cpp"], nitro=["options", "env"], variants=PLAIN_ASAN, runs=both,
                 deadline_s={"quick": 240, "thorough": 1500}, assumptions=PARSER_ASSUMPTIONS,
@@ -152,4 +171,12 @@ CHECKS = {
                              "a moved-from library / symbol object is destroyed right after the move (using it is not defined)"],
                 explanation="env: exhaustive (name, value, default, overload) grid on the real get(); dl: explicit-state BFS to a fixpoint over "
                             "open/load/copy/assign/move/call/destroy histories against a per-dlopen reference count"),
+    "C05": dict(src=["checks/C05.cpp"], nitro=[], variants=LOG_VARIANTS, runs=log_runs, deadline_s={"quick": 300, "thorough": 900},
+                replay_variant="plain+min0", assumptions=LOG_ASSUMPTIONS,
+                explanation="generated log programs executed on the real front end with recording formatter and sequence sink, event-by-event "
+                            "comparison with a reference interpreter of severity >= minimum and filter(expression, thresholds)"),
+    "C10": dict(src=["checks/C10.cpp"], nitro=[], variants=LOG_VARIANTS, runs=log_runs, deadline_s={"quick": 300, "thorough": 900},
+                replay_variant="plain+min0", assumptions=LOG_ASSUMPTIONS,
+                explanation="same generated programs as C05; judged: callables never run for disabled statements, exactly once and at their "
+                            "position for emitted ones; null stream type below the compile-time minimum (static_assert)"),
 }
